@@ -195,6 +195,28 @@ theorem wt_handleLayer {n t mt ci cr} : ∀ f, WellTol (handleLayer n t mt ci cr
       | delete _ => exact wt_deleteLayer wt_createLayer
       | replace m' _ => exact wt_replaceMeta ih
 
+theorem wt_handleLayerD {n t mt ci cr} : ∀ f, WellTol (handleLayerD n t mt ci cr f) := by
+  intro f
+  induction f with
+  | zero => exact WellTol.fail _
+  | succ f ih =>
+    unfold handleLayerD
+    apply wt_readLayer; intro r
+    cases r with
+    | none => exact wt_createLayer
+    | some _ m =>
+      dsimp only
+      split
+      · exact WellTol.fail _
+      · exact wt_deleteLayer wt_createLayer
+      · exact wt_replaceTypes wt_unit
+    | parseErr =>
+      apply wt_readGeneric; intro _ gm
+      split
+      · exact WellTol.fail _
+      · exact wt_deleteLayer wt_createLayer
+      · exact wt_replaceMeta ih
+
 theorem wt_writeSboms {n k} (hk : WellTol k) : ∀ l, WellTol (writeSboms n l k) := by
   intro l
   induction l with
@@ -330,6 +352,32 @@ theorem wt_tHandle {n t st mig c u} : ∀ f, WellTol (tHandle n t st mig c u f) 
       | none => exact WellTol.fail _
       | parseErr => exact WellTol.fail _
 
+theorem wt_tHandleD {n t st mig c u} : ∀ f, WellTol (tHandleD n t st mig c u f) := by
+  intro f
+  induction f with
+  | zero => exact WellTol.fail _
+  | succ f ih =>
+    unfold tHandleD
+    apply wt_tReadLayer; intro r
+    cases r with
+    | none => exact wt_tCreate
+    | some _ m e =>
+      dsimp only
+      split
+      · exact wt_deleteLayer wt_tCreate
+      · exact wt_tWriteLayer wt_tReread
+      · exact wt_tWriteLayer wt_tReread
+    | parseErr =>
+      apply wt_tReadLayer; intro g
+      cases g with
+      | some gt gm ge =>
+        dsimp only
+        split
+        · exact wt_deleteLayer ih
+        · exact wt_tWriteLayer ih
+      | none => exact WellTol.fail _
+      | parseErr => exact WellTol.fail _
+
 theorem wt_buildWrites {l s bs ls} : WellTol (buildWrites l s bs ls) := by
   unfold buildWrites
   apply WellTol.tolerate
@@ -349,6 +397,8 @@ theorem opProg_wellTol (op : String) (p : Prog) (h : opProg op = some p) : WellT
   unfold opProg at h
   split at h <;> cases h <;> first
     | exact wt_handleLayer _
+    | exact wt_handleLayerD _
+    | exact wt_tHandleD _
     | exact wt_replaceMeta wt_unit
     | exact wt_writeToLayerDir wt_unit
     | exact wt_replaceSboms wt_unit
